@@ -90,6 +90,10 @@ def definitional(rng):
                 "let f () =\n  match 1 with\n  | A -> 1\n", "let f x =\n  match x with\n  | _ -> 1\n", "let f () =\n  if 1 then 2 else \"s\"\n",
                 "let f () =\n  slice.Map 1 2\n", "let f () =\n  frt.Println 1 2 3\n", "package_info _ =\n  let Q: int->\n", "let f<T> (x:T) = x\n"):
         out.append(("illdef:" + src.split("\n")[0], head + src))
+    # types that refer to themselves through a function type (the visited set of the type traversals must cover function types too)
+    out.append(("recfunc:record", head + "type Stream = {Head: int; Next: int->Stream}\n\nlet hd (s:Stream) =\n  s.Head\n\nlet nx (s:Stream) =\n  let f = s.Next\n  f 1\n"))
+    out.append(("recfunc:union", head + "type Cmd =\n| Done\n| More of (int->Cmd)\n\nlet step (c:Cmd) =\n  match c with\n  | Done -> 0\n  | More f -> 1\n"))
+    out.append(("recfunc:mutual", head + "type A = {F: ()->B; N: int}\nand B = {G: int->A}\n\nlet n (a:A) =\n  a.N\n\nlet g (b:B) =\n  b.G\n"))
     out.append(("deepparen", head + "let f () =\n  " + "(" * 3000 + "1" + ")" * 3000 + "\n"))
     out.append(("longchain", head + "let f (a:int) =\n  " + " + ".join(["a"] * 6000) + "\n"))
     out.append(("manydefs", head + "".join("let f%d x = x\n\n" % i for i in range(3000))))
